@@ -50,8 +50,8 @@ ASSUMPTIONS = [
     "xDSL 0.70 compatibility shim (vlib/compat.py) only converts list-valued irdl_options to tuples",
     "layout semantics per snaxc/ir/tsl/README.md: strides listed outermost to innermost; address = offset + sum over strides of digit*step "
     "with digits the mixed-radix decomposition of the index over the tile bounds",
-    "dynamic steps: README 'Dynamic Sizes' + comments in get_step_ops: first dynamic step = largest static step x its bound (any stride "
-    "holding that step accepted on ties), then densely right-to-left, innermost-to-outermost; all-dynamic defaults to row-major-like "
+    "dynamic steps: README 'Dynamic Sizes' + comments in get_step_ops: first dynamic step = largest static step x its bound (on ties the "
+    "largest such product, so that the dynamic steps start above every tied stride's extent; the unchanged code takes the first tied stride: known finding), then densely right-to-left, innermost-to-outermost; all-dynamic defaults to row-major-like "
     "(innermost rightmost step = one element)",
     "arith/memref ops emitted by get_bound_ops/get_step_ops/convert-memref-to-arith are interpreted by a 40-line evaluator in this file "
     "(constant, addi, subi, muli, divui, memref.dim, memref.extract_strided_metadata, memref.extract_aligned_pointer_as_index)",
@@ -196,6 +196,8 @@ def prop_values(c):
 
 
 # ================================================================================================
+SIG_TIE_FIRST = "stepops:tie-for-largest-static-step:first-stride-wins:dynamic-steps-start-inside-a-larger-extent"
+
 # 3. get_bound_ops / get_step_ops, interpreted
 
 
@@ -337,25 +339,34 @@ def prop_ops(c):
     # acceptable instantiations: one per stride holding the largest static step (ties are not decided by the documentation)
     cands, best = G.static_max_candidates(r)
     all_dyn = not cands
-    starts = sorted({best * inst0["dims"][d][k][1] for d, k in cands}) if cands else [1]
+    # on a tie the dynamic steps have to start above the extent of every stride holding that step (else two elements share an address):
+    # the largest product is tried first; the product of the first such stride in iteration order is what the unchanged code takes
+    # (known finding when it is smaller); any other product is a violation
+    prods = [best * inst0["dims"][d][k][1] for d, k in cands] if cands else [1]
+    starts = [max(prods)] + [x for x in dict.fromkeys(prods) if x != max(prods)]
     dyn_pos = [(d, k) for d, k in pos if r["dims"][d][k][0] is None]
     ok = False
     exp = None
+    matched = None
+    # the value of a dynamic step of a stride whose run-time bound is 1 never reaches an address: not compared
+    free = {p for p in dyn_pos if inst0["dims"][p[0]][p[1]][1] == 1}
     for stt in starts:
         inst = G.instantiate(r, rt_b, start=stt, meta_strides=meta)
         e = {(d, k): inst["dims"][d][k][0] * scale for d, k in pos}
         exp = exp or e
-        if e == got:
+        if all(e[p] == got[p] for p in pos if p not in free):
             ok = True
+            matched = stt
             break
     known = []
-    # the value of a dynamic step of a stride whose run-time bound is 1 never reaches an address: not compared
-    free = {p for p in dyn_pos if inst0["dims"][p[0]][p[1]][1] == 1}
-    if not ok:
-        for stt in starts:
-            inst = G.instantiate(r, rt_b, start=stt, meta_strides=meta)
-            if all(inst["dims"][d][k][0] * scale == got[(d, k)] for d, k in pos if (d, k) not in free):
-                ok = True
+    if ok and matched != starts[0]:
+        detail = dict(layout=str(attr.data), rt_bounds=rt_b, elt=c["elt"], in_bytes=in_bytes, first_dynamic_step_starts_at=matched,
+                      largest_extent_of_a_stride_with_the_largest_static_step=starts[0],
+                      got={f"{d},{k}": v for (d, k), v in got.items()}, expected={f"{d},{k}": v for (d, k), v in exp.items()})
+        if matched == prods[0]:
+            known.append((SIG_TIE_FIRST, detail))
+        else:
+            raise Violation("stepops:tie-for-largest-static-step:stride-with-smaller-extent-chosen", detail)
     if not ok:
         bad = [p for p in pos if got[p] != exp[p] and p not in free]
         detail = dict(layout=str(attr.data), rt_bounds=rt_b, elt=c["elt"], in_bytes=in_bytes,
